@@ -22,6 +22,7 @@ package main
 import (
 	"bytes"
 	"context"
+	"encoding/json"
 	"fmt"
 	"io"
 	"math"
@@ -724,6 +725,8 @@ func (h *harness) histories(skip, keep bool, n int, seed int64, full bool) []his
 		}
 	}
 	// crash inside the seal, restart, seal again, delete
+	// between the two removals of Active.Release (the loader then has to remove the stale .docs itself)
+	hs = append(hs, mk(st("new"), st("fill"), at("seal", sealOps-1), st("start"), st("start")))
 	for k := 1; k <= sealOps; k += 2 {
 		hs = append(hs, mk(st("new"), st("fill"), at("seal", k), st("start"), st("start")))
 		if full {
@@ -1043,6 +1046,33 @@ func (h *harness) cache(rng *vh.RNG) {
 	for _, l := range lens {
 		variants[fmt.Sprintf("truncated@%d", l)] = valid[:l]
 	}
+	// entries the code explicitly does not trust (NewSealed: `info != nil && info.IndexOnDisk > 0`): a cache that parses
+	// but whose entries lack the sizes - written by an older version, or zeroed
+	var parsed map[string]map[string]any
+	if json.Unmarshal(valid, &parsed) == nil {
+		strip := func(keep func(k string) bool, zero bool) []byte {
+			out := map[string]map[string]any{}
+			for name, e := range parsed {
+				ne := map[string]any{}
+				for k, v := range e {
+					switch {
+					case keep(k):
+						ne[k] = v
+					case zero:
+						if _, isNum := v.(float64); isNum {
+							ne[k] = 0
+						}
+					}
+				}
+				out[name] = ne
+			}
+			b, _ := json.Marshal(out)
+			return b
+		}
+		variants["entries-name-only"] = strip(func(k string) bool { return k == "name" || k == "ver" }, false)
+		variants["entries-zeroed"] = strip(func(k string) bool { return k == "name" || k == "ver" }, true)
+		variants["entries-no-index-size"] = strip(func(k string) bool { return k != "index_on_disk" }, false)
+	}
 	for _, name := range vh.SortedKeys(variants) {
 		d := dirCopy(work, base)
 		p := filepath.Join(d, consts.FracCacheFileSuffix)
@@ -1109,7 +1139,7 @@ func main() {
 		chShr:   vh.NewChannel("shrink", "the real shrinkSizes on a store with several sealed fractions of growing size, TotalSize placed inside and exactly at every boundary, vs SV.Lifecycle.shrink: number of fractions removed; non-trivial = some but not all removed"),
 		orLife:  vh.NewOracle("life.restart", "every history of the life channel: no Load dies and the final restart serves the fraction completely or not at all; non-trivial = the history contains a crash"),
 		orOrder: vh.NewOracle("retention.order", "after shrinkSizes the remaining fractions are a suffix of the creation order and a restart serves exactly them; after a restart that finds an older unsealed fraction next to a newer sealed one fm.fracs is still in creation order; non-trivial = something was removed"),
-		orCache: vh.NewOracle("cache.restart", "restart with .frac-cache missing / empty / garbage / stale / truncated at several lengths serves the same fractions and documents as with the valid cache; non-trivial = not the valid cache"),
+		orCache: vh.NewOracle("cache.restart", "restart with .frac-cache missing / empty / garbage / stale / truncated at several lengths / parsing but with entries that lack the sizes (name only, numeric fields zeroed, no index_on_disk - what NewSealed explicitly refuses to trust) serves the same fractions and documents as with the valid cache; non-trivial = not the valid cache"),
 	}
 	rng := vh.NewRNG(o.Seed)
 	if o.Replay != "" {
